@@ -383,9 +383,68 @@ fn failed_write_histories(ctx: &mut Ctx) {
     ctx.count("oracle:failed-write histories, combined vs split");
 }
 
+/// the receive direction over a transport that hands the bytes over in fragments: the Read-based header calls of
+/// the combined object and of a half split off an identical object must return the same headers (or the same
+/// error kind), consume the same bytes and stay in step
+fn fragmented_read_histories(ctx: &mut Ctx) {
+    use crate::c11::{fragments, ScriptedReader};
+    let mut rng = ctx.rng("fragmented_reads");
+    let n = if ctx.quick() { 200 } else { 4000 };
+    for k in 0..n {
+        let key: [u8; 40] = rng.arr();
+        let machine = (k % 4) as u8;                    // 0 vanilla, 1 tbc, 2 wrath client (reads server headers), 3 wrath server (reads client headers)
+        let items = 1 + rng.range(0, 8) as usize;
+        let script: Vec<(bool, u32, u32)> = (0..items).map(|_| (rng.chance(1, 2), match rng.range(0, 4) { 0 => 0x7FFF, 1 => 0x8000, 2 => rng.range(0x8000, 0x7FFFFF) as u32, _ => rng.range(0, 0x7FFF) as u32 }, rng.next() as u32)).collect();
+        let style = (k / 4) as u64 % 4;
+        let truncate = k % 11 == 0;
+        let sc = script.clone();
+        let mut frag_rng = Rng::new(ctx.seed, &format!("C12FRAG/{}", k));
+        let r = catch(move || {
+            // the sender: the peer's encrypter
+            let mut wire: Vec<u8> = Vec::new();
+            match machine {
+                0 => { let (mut e, _) = v_crypto(key).split(); for (srv, s, o) in sc.iter() { if *srv { wire.extend_from_slice(&e.encrypt_server_header(*s as u16, *o as u16)); } else { wire.extend_from_slice(&e.encrypt_client_header(*s as u16, *o)); } } }
+                1 => { let (mut e, _) = t_crypto(key).split(); for (srv, s, o) in sc.iter() { if *srv { wire.extend_from_slice(&e.encrypt_server_header(*s as u16, *o as u16)); } else { wire.extend_from_slice(&e.encrypt_client_header(*s as u16, *o)); } } }
+                2 => { let (mut e, _) = w_server(key).split(); for (_, s, o) in sc.iter() { wire.extend_from_slice(e.encrypt_server_header(*s, *o as u16)); } }
+                _ => { let (mut e, _) = w_client(key).split(); for (_, s, o) in sc.iter() { wire.extend_from_slice(&e.encrypt_client_header(*s as u16, *o)); } }
+            }
+            if truncate && !wire.is_empty() { let cut = wire.len() - 1 - (wire.len() / 3); wire.truncate(cut); }
+            let ev = fragments(&mut frag_rng, &wire, style);
+            let (mut ra, mut rb) = (ScriptedReader::new(&ev), ScriptedReader::new(&ev));
+            let (mut a, mut b): (Vec<String>, Vec<String>) = (Vec::new(), Vec::new());
+            let show = |r: std::io::Result<(u32, u32)>| match r { Ok(h) => format!("{:?}", h), Err(e) => format!("error {:?}", e.kind()) };
+            match machine {
+                0 => { let mut c = v_crypto(key); let (_, mut d) = v_crypto(key).split();
+                       for (srv, _, _) in sc.iter() { if *srv { a.push(show(c.read_and_decrypt_server_header(&mut ra).map(|h| (h.size as u32, h.opcode as u32)))); b.push(show(d.read_and_decrypt_server_header(&mut rb).map(|h| (h.size as u32, h.opcode as u32)))); }
+                                                      else { a.push(show(c.read_and_decrypt_client_header(&mut ra).map(|h| (h.size as u32, h.opcode)))); b.push(show(d.read_and_decrypt_client_header(&mut rb).map(|h| (h.size as u32, h.opcode)))); } } }
+                1 => { let mut c = t_crypto(key); let (_, mut d) = t_crypto(key).split();
+                       for (srv, _, _) in sc.iter() { if *srv { a.push(show(c.read_and_decrypt_server_header(&mut ra).map(|h| (h.size as u32, h.opcode as u32)))); b.push(show(d.read_and_decrypt_server_header(&mut rb).map(|h| (h.size as u32, h.opcode as u32)))); }
+                                                      else { a.push(show(c.read_and_decrypt_client_header(&mut ra).map(|h| (h.size as u32, h.opcode)))); b.push(show(d.read_and_decrypt_client_header(&mut rb).map(|h| (h.size as u32, h.opcode)))); } } }
+                2 => { let mut c = w_client(key); let (_, mut d) = w_client(key).split();
+                       for _ in sc.iter() { a.push(show(c.read_and_decrypt_server_header(&mut ra).map(|h| (h.size, h.opcode as u32)))); b.push(show(d.read_and_decrypt_server_header(&mut rb).map(|h| (h.size, h.opcode as u32)))); } }
+                _ => { let mut c = w_server(key); let (_, mut d) = w_server(key).split();
+                       for _ in sc.iter() { a.push(show(c.read_and_decrypt_client_header(&mut ra).map(|h| (h.size as u32, h.opcode)))); b.push(show(d.read_and_decrypt_client_header(&mut rb).map(|h| (h.size as u32, h.opcode)))); } }
+            }
+            (a, b, ra.left(), rb.left())
+        });
+        ctx.oracle_runs += 1;
+        let sj: Vec<String> = script.iter().map(|(srv, s, o)| format!("{{\"{}\":[{},{}]}}", if *srv { "server_header" } else { "client_header" }, s, o)).collect();
+        let det = |what: &str| format!("{{\"what\":\"{}\",\"machine\":{},\"key\":\"{}\",\"fragment_style\":{},\"stream_truncated\":{},\"script\":[{}]}}", what, machine, hex(&key), style, truncate, sj.join(","));
+        match r {
+            None => ctx.fail("panic", det("panic while reading headers from a fragmenting transport")),
+            Some((a, b, la, lb)) => {
+                if a != b { let at = a.iter().zip(b.iter()).position(|(x, y)| x != y).unwrap_or(0); ctx.fail("split_fragmented_read", det(&format!("header {} read through the combined object ({}) differs from the same read through a split half ({})", at, a[at], b[at]))); }
+                else if la != lb { ctx.fail("split_fragmented_read", det(&format!("the combined object left {} bytes unread, the split half {}", la, lb))); }
+            }
+        }
+    }
+    ctx.count("oracle:fragmented-read histories, combined vs split");
+}
+
 pub fn run(ctx: &mut Ctx) {
     histories(ctx);
     failed_write_histories(ctx);
+    fragmented_read_histories(ctx);
     unsplit_cases(ctx);
     threads(ctx);
     ownership_precondition(ctx);
